@@ -101,10 +101,14 @@ def obligations(tier):
         CH("strict_refuses_custom_in_extensions", H4, "prop_extensions", t * 2, functions=F4[2:3], stubs=[FMT],
            bounds="two registered extensions each clean/custom and each given as dict or ready-made instance, unregistered extension, extension-definition; both orders"),
         CH("strict_refuses_injected_custom_content", H4, "flag_iff_strict_refuses", t * 2, mode="E1s", functions=["stix2.base._STIXBase.__init__"],
-           bounds="none, each single and each ordered pair of 34 injection sites on 7 base objects, with and without a legal unregistered property-extension next to them"),
+           bounds="none, each single and each ordered pair of 43 injection sites on 9 base objects, with and without a legal unregistered property-extension next to them"),
+        CH("strict_refuses_reserved_member_names", H4, "reserved_names", t, mode="E1s", functions=["stix2.base._STIXBase.__init__", "stix2.properties.EmbeddedObjectProperty.clean"],
+           bounds="members named allow_custom / interoperability / custom_properties at 12 sites, alone or next to a custom property"),
+        CH("unregistered_extension_entries", H, "ext_entries", t, mode="E1s", functions=["stix2.properties.ExtensionsProperty.clean"], stubs=[MODEL],
+           bounds="17 entry values (object with each extension type, not an object, empty, nulls and empty containers at depth 1-3, unknown / non-text / missing extension_type) under an unregistered extension-definition key x 5 host objects x parse / constructor"),
         CH("strict_refuses_custom_hash_names", H4, "prop_hashes", t, mode="E1s", functions=F4[3:], bounds="12 algorithm names, singles and pairs"),
     ]
     for p in range(8):
         obls.append(CH("corruption_then_valid_p%d" % p, H, "corrupt_then_valid", t * 2, mode="E1s", functions=FE[:2] + ["stix2.parsing.parse"], stubs=[MODEL],
-                       env={"VERIF_PART": str(p)}, bounds="(class, slot/nested site) cases with index %% 8 == %d x 25 junk values + deletion, strict mode" % p))
+                       env={"VERIF_PART": str(p)}, bounds="(class, slot/nested site) cases with index %% 8 == %d x %d junk values + deletion, strict mode" % (p, __import__("props.h_C17", fromlist=["NJ"]).NJ)))
     return obls
